@@ -84,6 +84,7 @@ func doBind(sc *Collection, originalInvokeF *provider, originalInitF *provider, 
 				return err
 			}
 			funcs = insertAt(funcs, 0, d)
+			invokeIndex++ // invokeF moved one position to the right
 		}
 		if receivesUnused {
 			d, err := makeUnusedReturnsProvider()
